@@ -174,7 +174,7 @@ def main(argv):
             rep.sample({"source": s, "call": r.get("call"), "env": r.get("env"), "expected_fold": c["ref"], "observed": obs})
 
     # ---- TRACE: code -> spec on richer random mixes
-    ntr = 2500 if tier == "quick" else 25000
+    ntr = 1500 if tier == "quick" else 25000
     rcases = [{"s": random_source(rnd), "kinds": RICH_KINDS, "variant": rnd.randint(0, 5)} for _ in range(ntr)]
     rres = pipeline.run_many(pipeline.run_source_case, rcases)
     tmp = common.scratch("c04")
